@@ -29,7 +29,7 @@ type c02Case struct {
 	Auth    string `json:"auth"`    // "-" absent
 	RX      string `json:"rx"`      // "-" absent
 	Noise   string `json:"noise"`   // "", "padding", "udp"
-	Masq    int    `json:"masq"`    // 0 default 404, 1 custom echo handler
+	Masq    int    `json:"masq"`    // 0 default 404, 1 custom echo handler, 2 bare-Write handler, 3 streaming handler
 	History int    `json:"history"` // 0 fresh, 1 after rejected auth, 2 after accepted auth, 3 after two masq requests, 4/5 another connection authenticated (closed / still open)
 }
 
@@ -62,6 +62,45 @@ func (c02Echo) ServeHTTP(w http.ResponseWriter, r *http.Request) {
 	fmt.Fprintf(w, "masq %s %s %s q=%s auth=%q", r.Method, r.Host, r.URL.Path, r.URL.RawQuery, r.Header.Get("Hysteria-Auth"))
 }
 
+// c02Plain: a handler that leaves status and Content-Type to the server (a bare Write), as a
+// file or string masquerade does; c02Stream: a handler that streams (needs http.Flusher and says so
+// with a 500 when the writer cannot flush). What a peer sees from them depends on what the
+// ResponseWriter the handler is GIVEN can do. (Added after the independently seeded change C02-6:
+// the handler was called with a wrapper that hid Flusher and pre-empted Content-Type sniffing.)
+type c02Plain struct{}
+
+func (c02Plain) ServeHTTP(w http.ResponseWriter, r *http.Request) {
+	w.Header().Set("X-Masq", "plain")
+	_, _ = w.Write([]byte("<html><head><title>" + r.URL.Path + "</title></head><body>" + strings.Repeat("masquerade ", 400) + "</body></html>"))
+}
+
+type c02Stream struct{}
+
+func (c02Stream) ServeHTTP(w http.ResponseWriter, r *http.Request) {
+	f, ok := w.(http.Flusher)
+	if !ok {
+		http.Error(w, "streaming unsupported", http.StatusInternalServerError)
+		return
+	}
+	w.Header().Set("Content-Type", "text/event-stream")
+	_, _ = w.Write([]byte("data: one\n\n"))
+	f.Flush()
+	_, _ = w.Write([]byte("data: " + r.Method + "\n\n"))
+	f.Flush()
+}
+
+func c02MasqHandler(kind int) http.Handler {
+	switch kind {
+	case 1:
+		return c02Echo{}
+	case 2:
+		return c02Plain{}
+	case 3:
+		return c02Stream{}
+	}
+	return nil
+}
+
 func c02Header(c *c02Case) http.Header {
 	h := http.Header{}
 	if c.Auth != "-" {
@@ -79,12 +118,7 @@ func c02Header(c *c02Case) http.Header {
 	return h
 }
 
-func c02Masq(c *c02Case) http.Handler {
-	if c.Masq == 1 {
-		return c02Echo{}
-	}
-	return nil
-}
+func c02Masq(c *c02Case) http.Handler { return c02MasqHandler(c.Masq) }
 
 // c02Expected runs the configured masquerade handler alone on an identical request.
 func c02Expected(c *c02Case, remote string) *vh3.Response {
@@ -97,8 +131,8 @@ func c02Expected(c *c02Case, remote string) *vh3.Response {
 	req.Body = http.NoBody
 	rec := httptest.NewRecorder()
 	var h http.Handler = http.HandlerFunc(http.NotFound)
-	if c.Masq == 1 {
-		h = c02Echo{}
+	if mh := c02MasqHandler(c.Masq); mh != nil {
+		h = mh
 	}
 	h.ServeHTTP(rec, req)
 	return &vh3.Response{Status: rec.Code, Header: rec.Header(), Body: rec.Body.Bytes()}
@@ -266,10 +300,10 @@ func c02Enumerate(sh *evidence.Shard) {
 	}
 	p := sh.Part("requests", "enum")
 	p.Alphabet = map[string]any{"method": c02Methods, "host": c02Hosts, "path": c02Paths, "Hysteria-Auth": c02Auths,
-		"Hysteria-CC-RX": c02RXs, "noise": c02Noises, "masquerade": []string{"default 404", "custom echo handler"}, "history": c02Histories}
+		"Hysteria-CC-RX": c02RXs, "noise": c02Noises, "masquerade": []string{"default 404", "custom echo handler", "bare-Write handler (status and Content-Type left to the server)", "streaming handler (needs http.Flusher)"}, "history": c02Histories}
 	var item int64
 	for hi := range c02Histories {
-		for mq := 0; mq < 2; mq++ {
+		for mq := 0; mq < 4; mq++ {
 			for _, m := range c02Methods {
 				for _, h := range c02Hosts {
 					for _, pa := range c02Paths {
@@ -279,6 +313,9 @@ func c02Enumerate(sh *evidence.Shard) {
 									c := c02Case{Method: m, Host: h, Path: pa, Auth: au, RX: rx, Noise: no, Masq: mq, History: hi}
 									if _, err := url.ParseRequestURI(pa); err != nil {
 										continue // not a request an HTTP/3 server hands to its handler
+									}
+									if mq >= 2 && (rx != "-" || no != "" || (hi > 1 && !env.Thorough())) {
+										continue // plain/streaming handlers: requests without CC-RX/noise variation
 									}
 									if !env.Thorough() {
 										// quick: full product on a fresh connection for auth/rx variation only on
